@@ -18,7 +18,7 @@ import (
 // channel opening, batched and delayed relay, consumer blocks; a ledger monitor remembers every
 // validator set the provider produced.
 type VSCRelay struct {
-	Variant string // "open": channel opened in the prefix; "late": opening is an event
+	Variant string // "open": channel opened in the prefix; "late": opening is an event; "latebatch": late + a queued two-validator update + the small alphabet
 	Epoch   int64
 	Delay   int64
 	Two     bool // second consumer (Top-N) alongside
@@ -177,6 +177,20 @@ func (c VSCRelay) NewWorker(stats *engine.Stats) (engine.Worker, error) {
 	}
 	w.root = n
 	w.build()
+	if c.Variant == "latebatch" {
+		// one update touching two validators is already queued while the channel does not exist yet
+		for _, ev := range []string{"delegate(v1,+1)", "undelegate(v0,-1)", "P.block"} {
+			nn, vs := w.tab.Apply(w.root, ev)
+			w.rootVs = append(w.rootVs, vs...)
+			if nn == nil {
+				return nil, fmt.Errorf("latebatch prefix: %s failed", ev)
+			}
+			w.root = nn.(*vrNode)
+		}
+		if q := p.K.GetPendingVSCPackets(w.root.P.Ctx, "0"); len(q) != 1 || len(q[0].ValidatorUpdates) != 2 {
+			return nil, fmt.Errorf("latebatch prefix: queued packets %v", q)
+		}
+	}
 	return w, nil
 }
 
@@ -216,7 +230,7 @@ func (w *vrWorker) build() {
 		w.tab.Add("C"+cid+".block", func(n engine.Node) (engine.Node, []V) { return w.cblock(n.(*vrNode), cid) })
 		w.tab.Add("deliver(P->C"+cid+",1)", func(n engine.Node) (engine.Node, []V) { return w.deliver(n.(*vrNode), cid, 1) })
 		w.tab.Add("deliver(P->C"+cid+",all)", func(n engine.Node) (engine.Node, []V) { return w.deliver(n.(*vrNode), cid, 1000) })
-		if w.cfg.Variant == "late" {
+		if w.cfg.Variant == "late" || w.cfg.Variant == "latebatch" {
 			w.tab.Add("open(C"+cid+")", func(n engine.Node) (engine.Node, []V) {
 				x := n.(*vrNode)
 				if x.L[cid].Stage != 0 {
@@ -256,7 +270,7 @@ func (w *vrWorker) build() {
 			return c, vs
 		})
 	}
-	if w.cfg.Variant == "batch" || w.cfg.Variant == "expiry" {
+	if w.cfg.Variant == "batch" || w.cfg.Variant == "expiry" || w.cfg.Variant == "latebatch" {
 		// small alphabet aimed at several packets landing in one consumer block
 		w.ptx("delegate(v1,+1)", func(*vrNode) sdk.Msg { return env.MsgDelegate(p.Delegator, p.Vals[1], unit) })
 		w.ptx("undelegate(v0,-1)", func(*vrNode) sdk.Msg { return env.MsgUndelegate(p.Vals[0].Oper, p.Vals[0], unit) })
